@@ -143,8 +143,17 @@ struct StreamSpec {
     fail: bool,
     rel: Rel,
     reset: Option<ResetAt>,
-    /// open the stream only after this many client events (0: up front)
+    /// open the stream only after this many client events (0: up front; huge: only once nothing
+    /// else can move, i.e. after the slow streams have reached their gates)
     open_after: usize,
+    /// slow stream: the handler reads the whole request body, then keeps its response pending until
+    /// the client has seen every other stream served (or stalled)
+    #[serde(default)]
+    gate: bool,
+    /// send the request body with END_STREAM on an empty DATA frame of its own instead of on the
+    /// frame that carries the last bytes
+    #[serde(default)]
+    tail_empty: bool,
 }
 
 #[derive(Clone, Debug, PartialEq, Serialize, Deserialize)]
@@ -256,7 +265,7 @@ impl StreamSpec {
         hop.sort_unstable();
         hop.dedup();
         format!(
-            "{} {} {:?}{}{}{}{}{}{}",
+            "{} {} {:?}{}{}{}{}{}",
             self.method,
             self.status,
             self.kind,
@@ -265,6 +274,10 @@ impl StreamSpec {
             if self.liar() { " lying-size" } else { "" },
             if self.fail { " via-err" } else { "" },
             if self.hdrs.iter().any(|(k, _)| k == "content-length") { " user-cl" } else { "" },
+        ) + &format!(
+            "{}{}{}",
+            if self.gate { " gated" } else { "" },
+            if self.method == "POST" && self.tail_empty { " tail-empty" } else { "" },
             if hop.is_empty() { String::new() } else { format!(" hop[{}]", hop.join(",")) },
         )
     }
@@ -298,6 +311,8 @@ struct Rec {
     yielded: usize,
     chunks: usize,
     empty_chunks: usize,
+    /// the handler has read the request to its end and waits at (or has passed) its gate
+    at_gate: bool,
     /// offset at which the last non-empty chunk yielded so far starts
     last_start: usize,
     /// 0 open, 1 ended, 2 failed
@@ -309,6 +324,24 @@ struct Rec {
 struct Sh {
     specs: Vec<StreamSpec>,
     recs: Vec<Rec>,
+    gate_open: bool,
+    gate_waiters: Vec<std::task::Waker>,
+}
+
+/// resolves once the client has opened the gate
+struct GateWait(Shared);
+
+impl Future for GateWait {
+    type Output = ();
+    fn poll(self: Pin<&mut Self>, cx: &mut Context<'_>) -> Poll<()> {
+        let mut sh = self.0.borrow_mut();
+        if sh.gate_open {
+            Poll::Ready(())
+        } else {
+            sh.gate_waiters.push(cx.waker().clone());
+            Poll::Pending
+        }
+    }
 }
 type Shared = Rc<RefCell<Sh>>;
 
@@ -438,6 +471,11 @@ async fn handler(sh: Shared, mut req: Request) -> Result<Response<BoxBody>, HErr
         }
     }
 
+    if spec.gate {
+        sh.borrow_mut().recs[idx].at_gate = true;
+        GateWait(sh.clone()).await;
+    }
+
     let mut rb = Response::build(StatusCode::from_u16(spec.status).unwrap_or(StatusCode::OK));
     rb.insert_header(("x-idx", idx.to_string()));
     for (k, v) in &spec.hdrs {
@@ -509,6 +547,8 @@ struct CStream {
     end: End,
     trailers: bool,
     stalled: bool,
+    /// what had been seen of the stream at the quiescence that convicted it
+    stall_note: Option<String>,
     /// owes a complete response (false for client-reset streams and unreleased victims)
     late_released: bool,
     window_full: u64,
@@ -550,6 +590,8 @@ struct SObs {
     end: End,
     trailers: bool,
     stalled: bool,
+    /// what had been seen of the stream at the quiescence that convicted it
+    stall_note: Option<String>,
     late_released: bool,
     window_full: u64,
     held_at_end: usize,
@@ -744,7 +786,12 @@ impl Client {
                     Ok((fut, mut tx)) => {
                         if has_body {
                             // h2 queues what exceeds the server's window and sends it as credit arrives
-                            if let Err(e) = tx.send_data(fill(i + 1000, 0, spec.req_body), true) {
+                            let split = spec.tail_empty && spec.req_body > 0;
+                            let mut r = tx.send_data(fill(i + 1000, 0, spec.req_body), !split);
+                            if split && r.is_ok() {
+                                r = tx.send_data(Bytes::new(), true);
+                            }
+                            if let Err(e) = r {
                                 self.harness.push(format!("stream {i}: send_data(request body): {e}"));
                             }
                         }
@@ -804,6 +851,26 @@ impl Client {
         }
     }
 
+    fn mark_stalled(&mut self, i: usize) {
+        let sh = self.sh.borrow();
+        let r = &sh.recs[i];
+        let spec = &self.case.streams[i];
+        let s = &mut self.st[i];
+        s.stalled = true;
+        s.stall_note = Some(format!(
+            "{}, {} of {} response bytes received, handler invoked {}x and had read {} of {} request bytes{}, body had yielded {} bytes in {} chunks",
+            if s.head.is_some() { "head received" } else { "no head" },
+            s.got,
+            spec.total(),
+            r.invoked,
+            r.req_len,
+            if spec.method == "POST" { spec.req_body } else { 0 },
+            if spec.gate { if r.at_gate { " (waiting at its gate)" } else { " (gate not reached)" } } else { "" },
+            r.yielded,
+            r.chunks
+        ));
+    }
+
     /// Nothing is runnable.  Returns false when the run is over.
     async fn quiescent(&mut self) -> bool {
         self.quiescences += 1;
@@ -854,7 +921,28 @@ impl Client {
             let choked = held as u64 >= self.case.cw as u64;
             self.victims_choked_conn = choked;
             let mut any_victim = false;
+            // slow (gated) streams: by now their handlers must hold the complete request; then they
+            // are let go
             for i in 0..self.st.len() {
+                if self.case.streams[i].gate && !matches!(self.st[i].phase, Phase::Done | Phase::Unopened) {
+                    any_victim = true;
+                    if !self.sh.borrow().recs[i].at_gate {
+                        self.mark_stalled(i);
+                    }
+                }
+            }
+            let waiters = {
+                let mut sh = self.sh.borrow_mut();
+                sh.gate_open = true;
+                std::mem::take(&mut sh.gate_waiters)
+            };
+            for w in waiters {
+                w.wake();
+            }
+            for i in 0..self.st.len() {
+                if self.case.streams[i].gate && !matches!(self.st[i].rel, Rel::Never(_)) {
+                    continue;
+                }
                 match self.st[i].rel {
                     Rel::Never(late) => {
                         any_victim = true;
@@ -878,7 +966,7 @@ impl Client {
                     }
                     _ => {
                         if !matches!(self.st[i].phase, Phase::Done) && !choked {
-                            self.st[i].stalled = true;
+                            self.mark_stalled(i);
                         }
                     }
                 }
@@ -894,9 +982,9 @@ impl Client {
             self.victims_choked_conn = true;
             return false;
         }
-        for s in self.st.iter_mut() {
-            if !matches!(s.phase, Phase::Done) && !matches!(s.rel, Rel::Never(_)) {
-                s.stalled = true;
+        for i in 0..self.st.len() {
+            if !matches!(self.st[i].phase, Phase::Done) && !matches!(self.st[i].rel, Rel::Never(_)) && !self.st[i].stalled {
+                self.mark_stalled(i);
             }
         }
         false
@@ -906,7 +994,7 @@ impl Client {
 async fn run_case(case: Case) -> Obs {
     let t0 = tokio::time::Instant::now();
     let n = case.streams.len();
-    let sh: Shared = Rc::new(RefCell::new(Sh { specs: case.streams.clone(), recs: vec![Rec::default(); n] }));
+    let sh: Shared = Rc::new(RefCell::new(Sh { specs: case.streams.clone(), recs: vec![Rec::default(); n], gate_open: false, gate_waiters: vec![] }));
     let (cio, sio) = tokio::io::duplex(case.pipe.max(1));
 
     let sh2 = sh.clone();
@@ -941,6 +1029,7 @@ async fn run_case(case: Case) -> Obs {
                 end: End::Open,
                 trailers: false,
                 stalled: false,
+                stall_note: None,
                 late_released: false,
                 window_full: 0,
             })
@@ -1044,6 +1133,7 @@ async fn run_case(case: Case) -> Obs {
             end: s.end.clone(),
             trailers: s.trailers,
             stalled: s.stalled,
+            stall_note: s.stall_note.clone(),
             late_released: s.late_released,
             window_full: s.window_full,
             held_at_end: s.pending,
@@ -1213,19 +1303,8 @@ fn judge(case: &Case, obs: &Obs, rep: &mut Reporter) -> Vec<Viol> {
 
         // --- completeness
         if o.stalled {
-            let hp = if o.head.is_some() { "head received" } else { "no head" };
-            v(
-                "stall",
-                "",
-                format!(
-                    "nothing is runnable, the client holds back no credit, and the response is incomplete ({hp}, {} of {} bytes, handler invoked {}x, body yielded {} bytes in {} chunks)",
-                    o.got,
-                    spec.total(),
-                    r.invoked,
-                    r.yielded,
-                    r.chunks
-                ),
-            );
+            let note = o.stall_note.clone().unwrap_or_default();
+            v("stall", "", format!("nothing is runnable, the client holds back no credit, and the stream has not been served: {note}"));
             continue;
         }
         if !owes_all {
@@ -1401,6 +1480,8 @@ fn base_stream() -> StreamSpec {
         rel: Rel::Imm,
         reset: None,
         open_after: 0,
+        gate: false,
+        tail_empty: false,
     }
 }
 
@@ -1577,6 +1658,7 @@ fn gen_case(rng: &mut Rng, budget: u64) -> Case {
         c.resize = Some((rng.range(0, 12), *rng.pick(&[1u32, 50, 100, 1_000, 16_384, 65_535, 200_000])));
     }
     let mut resets_at_open = 0;
+    let gated_case = rng.chance(1, 5);
     for _ in 0..n {
         let mut s = base_stream();
         let m = rng.below(100);
@@ -1648,6 +1730,10 @@ fn gen_case(rng: &mut Rng, budget: u64) -> Case {
         if rng.chance(1, 5) {
             s.open_after = rng.range(1, 20);
         }
+        if gated_case && rng.chance(1, 3) {
+            s.gate = true;
+        }
+        s.tail_empty = rng.chance(1, 4);
         c.streams.push(s);
     }
     // at least one stream that owes everything
@@ -1676,6 +1762,159 @@ fn gen_case(rng: &mut Rng, budget: u64) -> Case {
     c
 }
 
+/// open only once nothing else can move
+const AT_QUIESCENCE: usize = 1_000_000_000;
+
+/// request-body sizes of the slow streams relative to the server's connection receive window `w`
+const UPLOAD_PATTERNS: [&str; 8] = ["all=win", "all=win+1", "all=win-1", "last=win", "last=win+1", "big+small", "over", "random"];
+
+/// size of the last DATA frame of a body when no window limits it
+fn last_frame(b: usize) -> usize {
+    if b == 0 {
+        0
+    } else if b % FRAME == 0 {
+        FRAME
+    } else {
+        b % FRAME
+    }
+}
+
+fn slow_bodies(rng: &mut Rng, w: usize, k: usize, pattern: &str) -> Vec<usize> {
+    let even = |total: usize| -> Vec<usize> {
+        // remainder spread one byte each so that every body stays a single frame when it can
+        (0..k).map(|j| total / k + usize::from(j < total % k)).collect::<Vec<usize>>()
+    };
+    match pattern {
+        "all=win" => even(w),
+        "all=win+1" => even(w + 1),
+        "all=win-1" => even(w - 1),
+        "last=win" | "last=win+1" => {
+            // multi-frame bodies; the last one is sized so that the final frames add up to the window
+            let target = if pattern == "last=win" { w } else { w + 1 };
+            let mut v = vec![];
+            let mut sum_last = 0usize;
+            for j in 0..k {
+                let left = target.saturating_sub(sum_last);
+                let lf = if j + 1 == k { left.min(FRAME) } else { (left / (k - j)).clamp(1, FRAME) };
+                let full = if lf < FRAME { rng.below(3) } else { rng.below(2) };
+                v.push(full * FRAME + lf);
+                sum_last += lf;
+            }
+            v
+        }
+        "big+small" => {
+            let big = *rng.pick(&[20_000usize, 40_000, 50_000]);
+            let mut v = vec![big.min(w.saturating_sub(k).max(1))];
+            let rest = w.saturating_sub(if rng.chance(1, 2) { v[0] } else { last_frame(v[0]) });
+            let m = k.saturating_sub(1).max(1);
+            for j in 0..m {
+                v.push((rest / m + if j == 0 { rest % m } else { 0 }).min(FRAME).max(1));
+            }
+            v
+        }
+        "over" => vec![(w / k + rng.range(1, 2_000)).min(FRAME); k + 2],
+        _ => (0..k).map(|_| *rng.pick(&[1usize, 100, 4_096, 13_107, FRAME - 1, FRAME, FRAME + 1, 20_000, 40_000])).collect(),
+    }
+}
+
+fn upload_case(rng: &mut Rng, w: u32, k: usize, pattern: &str, tail_empty: bool, fast_late: bool, fast_body: usize) -> Case {
+    let mut c = base_case(65_535, 1 << 20);
+    c.srv_cw = w;
+    c.srv_sw = *rng.pick(&[65_535u32, 200_000, 1 << 20]);
+    c.pipe = *rng.pick(&[1_024usize, 65_536, 1 << 20]);
+    for b in slow_bodies(rng, w as usize, k, pattern) {
+        let mut s = base_stream();
+        s.method = "POST".into();
+        s.req_body = b;
+        s.gate = true;
+        s.tail_empty = tail_empty;
+        s.steps = vec![Step::D(rng.range(1, 40))];
+        c.streams.push(s);
+    }
+    // the streams that must be served while the slow ones are held
+    let open_after = if fast_late { AT_QUIESCENCE } else { 0 };
+    let mut f = base_stream();
+    f.method = "POST".into();
+    f.req_body = fast_body;
+    f.tail_empty = tail_empty && rng.chance(1, 2);
+    f.open_after = open_after;
+    f.rel = *rng.pick(&[Rel::Imm, Rel::Lazy]);
+    c.streams.push(f);
+    for _ in 0..rng.below(3) {
+        let mut g = base_stream();
+        let m = rng.below(3);
+        g.method = ["GET", "HEAD", "POST"][m].into();
+        if m == 2 {
+            g.req_body = *rng.pick(&[0usize, 1, 100, FRAME, 40_000, 70_000]);
+        }
+        g.kind = *rng.pick(&[Kind::Bytes, Kind::BodyStream, Kind::CustomStream]);
+        g.steps = vec![Step::D(rng.range(1, 3_000))];
+        g.open_after = if rng.chance(1, 2) { AT_QUIESCENCE } else { 0 };
+        c.streams.push(g);
+    }
+    c
+}
+
+fn upload_sig(rep: &mut Reporter, c: &Case, k: usize, pattern: &str, tail_empty: bool, fast_late: bool, fast_body: usize) {
+    let fb = match fast_body {
+        0 => "0",
+        1..=16_384 => "<=16k",
+        _ => ">16k",
+    };
+    rep.sig(&format!("upload|srvcw{}|srvsw{}|k{}|{}|tail{}|fast{}:{}|n{}", c.srv_cw, c.srv_sw, bucket(k), pattern, tail_empty, if fast_late { "late" } else { "upfront" }, fb, bucket(c.streams.len())));
+    rep.count("upload-connections", 1);
+    rep.count(&format!("upload-connections:{pattern}"), 1);
+    rep.count("upload-slow-streams", k as u64);
+}
+
+/// Phase C: slow streams pin whatever the server does not refund of its connection receive window
+fn uploads(ctx: &Ctx, rep: &mut Reporter) {
+    // enumerated part
+    let mut idx = 0u64;
+    let mut complete = true;
+    'outer: for w in [65_535u32, 70_000] {
+        for k in [4usize, 5, 8, 16] {
+            for pattern in ["all=win", "all=win+1", "all=win-1", "last=win"] {
+                for tail_empty in [false, true] {
+                    for fast_late in [false, true] {
+                        for fast_body in [1usize, 13_107, 40_000] {
+                            idx += 1;
+                            if !ctx.mine(idx) {
+                                continue;
+                            }
+                            if ctx.out_of_time() {
+                                complete = false;
+                                break 'outer;
+                            }
+                            let mut rng = Rng::derive(ctx.seed, 9, idx);
+                            let c = upload_case(&mut rng, w, k, pattern, tail_empty, fast_late, fast_body);
+                            upload_sig(rep, &c, k, pattern, tail_empty, fast_late, fast_body);
+                            exec(&c, rep, if idx == 1 { Some("upload-connection") } else { None });
+                        }
+                    }
+                }
+            }
+        }
+    }
+    rep.exhaustive("uploads: server connection window x slow-stream count x body-size pattern x END_STREAM placement x fast-stream timing x fast body size", complete);
+    // random part
+    let n = if ctx.is_miri() { 2 } else { ctx.share(3_200, 80_000) };
+    for j in 0..n {
+        if ctx.out_of_time() {
+            break;
+        }
+        let mut rng = Rng::derive(ctx.seed, 10, j * ctx.nshards + ctx.shard);
+        let w = *rng.pick(&[65_535u32, 65_535, 65_536, 70_000, 100_000, 131_072]);
+        let k = *rng.pick(&[1usize, 2, 3, 4, 5, 6, 8, 12, 16, 24]);
+        let pattern = *rng.pick(&UPLOAD_PATTERNS);
+        let (tail_empty, fast_late) = (rng.chance(1, 4), rng.chance(2, 3));
+        let fast_body = *rng.pick(&[0usize, 1, 100, 13_107, FRAME, 40_000, 70_000]);
+        let c = upload_case(&mut rng, w, k, pattern, tail_empty, fast_late, fast_body);
+        upload_sig(rep, &c, k, pattern, tail_empty, fast_late, fast_body);
+        exec(&c, rep, None);
+    }
+}
+
 pub fn run(ctx: &Ctx, rep: &mut Reporter) {
     if let Some(r) = &ctx.replay {
         match serde_json::from_value::<Case>(r.clone()) {
@@ -1691,6 +1930,9 @@ pub fn run(ctx: &Ctx, rep: &mut Reporter) {
 
     // Phase A: the grid
     grid(ctx, rep);
+
+    // Phase C: uploads against small server connection windows with slow (gated) streams
+    uploads(ctx, rep);
 
     // Phase B: random connections
     let budget: u64 = if ctx.is_miri() { 60 } else if ctx.thorough() { 8_000 } else { 1_500 };
